@@ -9,113 +9,7 @@ verus! {
 //#include ../_shared/str_axioms.inc.rs
 //#use-contract catalog ../_shared/bytediff.inc.rs
 
-/// bytes the segments contribute to the OLD text (Equal and Delete), in order
-pub open spec fn old_side(s: Seq<ByteDiff>) -> Seq<u8>
-    decreases s.len()
-{
-    if s.len() == 0 { Seq::empty() } else { old_side(s.drop_last()) + (if bd_op(s.last()) == ByteDiffOp::Insert { Seq::<u8>::empty() } else { bd_data(s.last()) }) }
-}
-/// bytes the segments contribute to the NEW text (Equal and Insert), in order
-pub open spec fn new_side(s: Seq<ByteDiff>) -> Seq<u8>
-    decreases s.len()
-{
-    if s.len() == 0 { Seq::empty() } else { new_side(s.drop_last()) + (if bd_op(s.last()) == ByteDiffOp::Delete { Seq::<u8>::empty() } else { bd_data(s.last()) }) }
-}
-
-/// O1 stub for `&s[a..b]` on str: vstd checks the precondition of a Range<usize> index into str (in bounds, on
-/// char boundaries) but states nothing about the result; the documented behaviour is assumed here.
-#[verifier::external_body]
-fn str_sub(s: &str, a: usize, b: usize) -> (r: &str)
-    requires a <= b <= s.spec_bytes().len(), is_char_boundary(s.spec_bytes(), a as int), is_char_boundary(s.spec_bytes(), b as int),
-    ensures r.spec_bytes() == s.spec_bytes().subrange(a as int, b as int),
-{ unimplemented!() }
-
-proof fn lemma_sides_0(s: Seq<ByteDiff>)
-    requires s.len() == 0
-    ensures old_side(s) =~= Seq::<u8>::empty(), new_side(s) =~= Seq::<u8>::empty()
-{
-}
-proof fn lemma_sides_1(s: Seq<ByteDiff>)
-    requires s.len() == 1
-    ensures
-        old_side(s) =~= (if bd_op(s[0]) == ByteDiffOp::Insert { Seq::<u8>::empty() } else { bd_data(s[0]) }),
-        new_side(s) =~= (if bd_op(s[0]) == ByteDiffOp::Delete { Seq::<u8>::empty() } else { bd_data(s[0]) }),
-{
-    lemma_sides_0(s.drop_last());
-    assert(s.last() == s[0]);
-}
-proof fn lemma_sides_2(s: Seq<ByteDiff>)
-    requires s.len() == 2
-    ensures
-        old_side(s) =~= (if bd_op(s[0]) == ByteDiffOp::Insert { Seq::<u8>::empty() } else { bd_data(s[0]) }) + (if bd_op(s[1]) == ByteDiffOp::Insert { Seq::<u8>::empty() } else { bd_data(s[1]) }),
-        new_side(s) =~= (if bd_op(s[0]) == ByteDiffOp::Delete { Seq::<u8>::empty() } else { bd_data(s[0]) }) + (if bd_op(s[1]) == ByteDiffOp::Delete { Seq::<u8>::empty() } else { bd_data(s[1]) }),
-{
-    lemma_sides_1(s.drop_last());
-    assert(s.drop_last()[0] == s[0]);
-    assert(s.last() == s[1]);
-}
-
-//#item file=src/authorship/attribution_tracker.rs kind=fn name=append_range_diffs opaque='[{"expr": "&old_content[old_start..old_end]", "call": "str_sub(old_content, old_start, old_end)"}, {"expr": "&new_content[new_start..new_end]", "call": "str_sub(new_content, new_start, new_end)"}]'
-fn append_range_diffs(
-    diffs: &mut Vec<ByteDiff>,
-    old_content: &str,
-    new_content: &str,
-    old_range: (usize, usize),
-    new_range: (usize, usize),
-    force_split: bool,
-)
-//@     requires
-//@         old_range.0 <= old_range.1 <= old_content.spec_bytes().len(), new_range.0 <= new_range.1 <= new_content.spec_bytes().len(),
-//@         is_char_boundary(old_content.spec_bytes(), old_range.0 as int), is_char_boundary(old_content.spec_bytes(), old_range.1 as int),
-//@         is_char_boundary(new_content.spec_bytes(), new_range.0 as int), is_char_boundary(new_content.spec_bytes(), new_range.1 as int),
-//@     ensures
-//@         final(diffs)@.len() >= old(diffs)@.len(), final(diffs)@.subrange(0, old(diffs)@.len() as int) =~= old(diffs)@,
-//@         // the appended segments re-concatenate to the two byte ranges: no byte of either side is lost, invented or reordered
-//@         old_side(final(diffs)@.subrange(old(diffs)@.len() as int, final(diffs)@.len() as int)) =~= old_content.spec_bytes().subrange(old_range.0 as int, old_range.1 as int),
-//@         new_side(final(diffs)@.subrange(old(diffs)@.len() as int, final(diffs)@.len() as int)) =~= new_content.spec_bytes().subrange(new_range.0 as int, new_range.1 as int),
-//@         // and no appended segment is empty
-//@         forall|k: int| old(diffs)@.len() <= k < final(diffs)@.len() ==> bd_data(#[trigger] final(diffs)@[k]).len() > 0,
-{
-    let (old_start, old_end) = old_range;
-    let (new_start, new_end) = new_range;
-    //@ let ghost d0 = diffs@;
-    //@ let ghost ob = old_content.spec_bytes().subrange(old_range.0 as int, old_range.1 as int);
-    //@ let ghost nb = new_content.spec_bytes().subrange(new_range.0 as int, new_range.1 as int);
-
-    if old_start >= old_end && new_start >= new_end {
-        //@ proof { lemma_sides_0(diffs@.subrange(d0.len() as int, diffs@.len() as int)); }
-        return;
-    }
-
-    let old_slice = str_sub(old_content, old_start, old_end);
-    let new_slice = str_sub(new_content, new_start, new_end);
-    //@ proof { assert(old_slice.spec_bytes() =~= ob); assert(new_slice.spec_bytes() =~= nb); }
-
-    if !force_split && !old_slice.is_empty() && !new_slice.is_empty() && old_slice == new_slice {
-        diffs.push(ByteDiff::new(ByteDiffOp::Equal, new_slice.as_bytes()));
-        //@ proof {
-        //@     let app = diffs@.subrange(d0.len() as int, diffs@.len() as int);
-        //@     assert(app.len() == 1 && app[0] == diffs@[d0.len() as int]);
-        //@     lemma_sides_1(app);
-        //@     assert(old_slice.spec_bytes() =~= new_slice.spec_bytes());
-        //@ }
-        return;
-    }
-
-    if !old_slice.is_empty() {
-        diffs.push(ByteDiff::new(ByteDiffOp::Delete, old_slice.as_bytes()));
-    }
-    if !new_slice.is_empty() {
-        diffs.push(ByteDiff::new(ByteDiffOp::Insert, new_slice.as_bytes()));
-    }
-    //@ proof {
-    //@     let app = diffs@.subrange(d0.len() as int, diffs@.len() as int);
-    //@     if app.len() == 0 { lemma_sides_0(app); }
-    //@     else if app.len() == 1 { assert(app[0] == diffs@[d0.len() as int]); lemma_sides_1(app); }
-    //@     else { assert(app.len() == 2); assert(app[0] == diffs@[d0.len() as int]); assert(app[1] == diffs@[d0.len() as int + 1]); lemma_sides_2(app); }
-    //@ }
-}
-//#end
+//#include ../_shared/append_range_diffs.inc.rs
 
 } // verus!
 fn main() {}
